@@ -30,7 +30,7 @@
 #define SBA_HDR (sizeof(struct page_header))
 
 /* ---- specification of the size-class map: smallest class that holds `size` (size <= 512) ---- */
-#define SBA_CLASS_IDX(size) ((size) <= 32 ? 0 : (size) <= 64 ? 1 : (size) <= 128 ? 2 : (size) <= 256 ? 3 : 4)
+#define SBA_CLASS_IDX(size) ((size_t)((size) > 32) + (size_t)((size) > 64) + (size_t)((size) > 128) + (size_t)((size) > 256)) /* branch-free: usable in assigns targets */
 #define SBA_CLASS_SIZE(idx) ((size_t)32 << (idx))
 
 /* =====================================================================================================================
@@ -50,6 +50,7 @@
  *   free         : slot stored in bin->free_chunks
  *   LIVE         : slot that is not free  (== handed out by s_sba_alloc_from_bin and not yet given back)
  * ===================================================================================================================== */
+#ifndef SBA_BLOCK_LAYER_ONLY
 #ifndef SBA_MAXP
 #    define SBA_MAXP 4
 #endif
@@ -72,17 +73,6 @@ static inline uint8_t *sba_model_new_page(void) {
     __CPROVER_assume(p != NULL);
     return p;
 }
-
-/* ASSUMED contract of s_page_base (integer<->pointer address mask, outside CBMC's memory model) in page-table form:
- * NULL -> NULL; a pointer into page object i of the model -> the base of that object.  On a flat address space with
- * page-aligned pages (posix_memalign(.., PAGE, PAGE)) this is what (addr & ~(PAGE-1)) computes. */
-#define SBA_PB_CASE(i) (addr != NULL && g_pt[i] != NULL && __CPROVER_same_object(addr, g_pt[i]) ==> PEQ(RET, (void *)g_pt[i]))
-static void *s_page_base(const void *addr)
-__CPROVER_requires(1)
-__CPROVER_assigns()
-__CPROVER_ensures(addr == NULL ==> RET == NULL)
-__CPROVER_ensures(SBA_PB_CASE(0) && SBA_PB_CASE(1) && SBA_PB_CASE(2) && SBA_PB_CASE(3))
-;
 
 #define SBA_AL_AT(list, i) (((void **)(list)->data)[(i)])
 #define SBA_NCH(sz) ((SBA_PAGE - SBA_HDR) / (sz)) /* chunks per page */
@@ -193,5 +183,173 @@ static inline size_t sba_bin_live_count(const struct sba_bin *bin) {
 static inline size_t sba_bin_pages(const struct sba_bin *bin) {
     return bin->active_pages.length + (bin->page_cursor != NULL ? 1 : 0);
 }
+
+#endif /* !SBA_BLOCK_LAYER_ONLY */
+
+/* =====================================================================================================================
+ * Block layer: DFCC contracts.
+ *
+ * Ghost protocol
+ *   g_lk_held / g_lk_locks / g_lk_unlocks : the allocator's lock and unlock function pointers obey sba_lock_contract /
+ *       sba_unlock_contract: "nothing held -> this mutex held" and back, counted.  s_sba_alloc_from_bin and
+ *       s_sba_free_to_bin REQUIRE the mutex of their bin to be held, so "the lowest-level operations run under the mutex
+ *       of their own bin and the lock is released afterwards" are obligations at the real call sites (sequential
+ *       semantics; no interleavings).
+ *   g_afb_* / g_ftb_* : record of the calls to s_sba_alloc_from_bin / s_sba_free_to_bin (how often, which bin, which block).
+ *   g_pacq_* / g_prel_* : record of the calls that reach the parent allocator.
+ *   g_al_* / g_fr_*   : record of the calls to s_sba_alloc / s_sba_free (block-layer clients: realloc, calloc, forwarders).
+ * ===================================================================================================================== */
+#ifdef SBA_BLOCK_LAYER
+struct aws_mutex *g_lk_held;
+size_t g_lk_locks, g_lk_unlocks;
+size_t g_afb_calls, g_ftb_calls;
+struct sba_bin *g_afb_bin, *g_ftb_bin;
+void *g_ftb_addr;
+bool g_ftb_retires; /* arbitrary: whether s_sba_free_to_bin hands the page back to the OS */
+size_t g_pacq_calls, g_pacq_size, g_prel_calls;
+void *g_prel_last;
+size_t g_al_calls, g_al_size, g_fr_calls;
+void *g_fr_last;
+/* enforce-side scenario of s_sba_free: which kind of block is released */
+int g_case;          /* 0: NULL   1: small block (inside a tagged page)   2: block of the parent allocator */
+uint8_t *g_pg;       /* case 1: the page object */
+size_t g_pgsz;       /* case 1: size of the page object == one page (a variable, so that CBMC keeps the page as an array term) */
+size_t g_off;        /* case 1: offset of the block in the page */
+size_t g_bi;         /* case 1: index of the bin the page header points to */
+size_t g_lsz;        /* case 2: size of the parent's block */
+
+#define SBA_GHOST_RESET() do { GHOST_RESET_COMMON(); GHOST_RESET_ALLOC(); g_lk_held = NULL; } while (0)
+
+int sba_lock_contract(struct aws_mutex *mutex)
+__CPROVER_requires(mutex != NULL && g_lk_held == NULL)
+__CPROVER_assigns(g_lk_held, g_lk_locks)
+__CPROVER_ensures(g_lk_held == mutex && g_lk_locks == OLD(g_lk_locks) + 1)
+;
+int sba_unlock_contract(struct aws_mutex *mutex)
+__CPROVER_requires(mutex != NULL && g_lk_held == mutex)
+__CPROVER_assigns(g_lk_held, g_lk_unlocks)
+__CPROVER_ensures(g_lk_held == NULL && g_lk_unlocks == OLD(g_lk_unlocks) + 1)
+;
+/* obeys_contract needs the address of the contract function to be taken somewhere */
+void *sba_keep_contracts[2] = {(void *)sba_lock_contract, (void *)sba_unlock_contract};
+
+/* ---- what every entry point may assume about the allocator object (established by aws_small_block_allocator_new,
+ *      unit new_destroy; none of the functions under contract changes it) ---- */
+#define SBA_TABLE_OK(sba)                                                                                              \
+    ((sba)->bins[0].size == 32 && (sba)->bins[1].size == 64 && (sba)->bins[2].size == 128 && (sba)->bins[3].size == 256 && \
+     (sba)->bins[4].size == 512)
+#define SBA_REQ(sba)                                                                                                   \
+    __CPROVER_requires(__CPROVER_is_fresh((sba), sizeof(*(sba))))                                                      \
+    __CPROVER_requires(SBA_TABLE_OK(sba) && (sba)->allocator != NULL)                                                  \
+    __CPROVER_requires(__CPROVER_obeys_contract((sba)->lock, sba_lock_contract))                                       \
+    __CPROVER_requires(__CPROVER_obeys_contract((sba)->unlock, sba_unlock_contract))                                   \
+    __CPROVER_requires(g_lk_held == NULL)
+#define SBA_KEPT(sba) (SBA_TABLE_OK(sba) && (sba)->allocator == OLD((sba)->allocator) && g_lk_held == NULL)
+
+/* ---- ASSUMED: s_page_base.  The integer<->pointer address mask is outside CBMC's memory model; on a flat address space
+ *      with page-aligned page objects it yields: same object, offset rounded down to the page size; NULL -> NULL. ---- */
+static void *s_page_base(const void *addr)
+__CPROVER_requires(1)
+__CPROVER_assigns()
+__CPROVER_ensures(addr == NULL ==> RET == NULL)
+__CPROVER_ensures(addr != NULL ==> PEQ(RET, (uint8_t *)addr - (__CPROVER_POINTER_OFFSET(addr) & (SBA_PAGE - 1))))
+;
+
+/* ---- parent allocator entry points with call records (same promises as contracts/allocator.h, client flavour) ---- */
+void *sba_parent_acquire_contract(struct aws_allocator *allocator, size_t size)
+__CPROVER_requires(allocator != NULL && size > 0)
+__CPROVER_assigns(g_pacq_calls, g_pacq_size)
+__CPROVER_ensures(__CPROVER_is_fresh(RET, size))
+__CPROVER_ensures(g_pacq_calls == OLD(g_pacq_calls) + 1 && g_pacq_size == size)
+;
+void sba_parent_release_contract(struct aws_allocator *allocator, void *ptr)
+__CPROVER_requires(allocator != NULL)
+__CPROVER_requires(ptr == NULL || __CPROVER_is_freeable(ptr))
+__CPROVER_assigns(g_prel_calls, g_prel_last)
+__CPROVER_frees(ptr)
+__CPROVER_ensures(g_prel_calls == OLD(g_prel_calls) + 1 && g_prel_last == ptr)
+;
+
+/* ---- BLOCK-LAYER ABSTRACTION (assumed by the proof-mode units, justified by the bounded inductive steps alloc_step_* /
+ *      free_step_*): a chunk handed out by s_sba_alloc_from_bin behaves like a separately allocated object of bin->size
+ *      bytes - valid for the whole class size, disjoint from everything else that is live; giving it back ends its life.
+ *      Both require the bin's own mutex to be held. ---- */
+#define SBA_BIN_FRAME(bin) (bin)->page_cursor, (bin)->active_pages, (bin)->free_chunks
+static void *s_sba_alloc_from_bin(struct sba_bin *bin)
+__CPROVER_requires(__CPROVER_rw_ok(bin, sizeof(*bin)))
+__CPROVER_requires(g_lk_held == &bin->mutex)
+__CPROVER_assigns(g_afb_calls, g_afb_bin, SBA_BIN_FRAME(bin))
+__CPROVER_ensures(__CPROVER_is_fresh(RET, bin->size))
+__CPROVER_ensures(g_afb_calls == OLD(g_afb_calls) + 1 && g_afb_bin == bin)
+;
+#define SBA_PAGE_OF(addr) ((uint8_t *)(addr) - (__CPROVER_POINTER_OFFSET(addr) & (SBA_PAGE - 1)))
+static void s_sba_free_to_bin(struct sba_bin *bin, void *addr)
+__CPROVER_requires(__CPROVER_rw_ok(bin, sizeof(*bin)))
+__CPROVER_requires(addr != NULL && g_lk_held == &bin->mutex)
+__CPROVER_requires(((struct page_header *)SBA_PAGE_OF(addr))->bin == bin) /* the source's AWS_ASSERT(page->bin == bin) */
+__CPROVER_assigns(g_ftb_calls, g_ftb_bin, g_ftb_addr, SBA_BIN_FRAME(bin), __CPROVER_object_upto(SBA_PAGE_OF(addr), sizeof(struct page_header)))
+__CPROVER_frees(g_ftb_retires : SBA_PAGE_OF(addr))
+__CPROVER_ensures(g_ftb_calls == OLD(g_ftb_calls) + 1 && g_ftb_bin == bin && g_ftb_addr == addr)
+;
+
+/* ---- s_sba_alloc: sizes up to 512 are served by the smallest class that holds them, under that bin's mutex; larger
+ *      sizes by the parent.  Either way a fresh block of at least `size` bytes, never NULL. ---- */
+#define SBA_ALLOC_BIN(sba, size) (&(sba)->bins[SBA_CLASS_IDX(size)])
+static void *s_sba_alloc(struct small_block_allocator *sba, size_t size)
+SBA_REQ(sba)
+__CPROVER_requires(size > 0)
+__CPROVER_assigns(g_al_calls, g_al_size)
+__CPROVER_assigns(size <= 512 : g_lk_held, g_lk_locks, g_lk_unlocks, g_afb_calls, g_afb_bin, SBA_BIN_FRAME(SBA_ALLOC_BIN(sba, size)))
+__CPROVER_assigns(size > 512 : g_pacq_calls, g_pacq_size)
+__CPROVER_ensures(__CPROVER_is_fresh(RET, size))
+__CPROVER_ensures(size <= 512 ==> g_afb_calls == OLD(g_afb_calls) + 1 && g_afb_bin == SBA_ALLOC_BIN(sba, size) &&
+                                  g_lk_locks == OLD(g_lk_locks) + 1 && g_lk_unlocks == OLD(g_lk_unlocks) + 1 && g_pacq_calls == OLD(g_pacq_calls))
+__CPROVER_ensures(size > 512 ==> g_pacq_calls == OLD(g_pacq_calls) + 1 && g_pacq_size == size && g_afb_calls == OLD(g_afb_calls) &&
+                                 g_lk_locks == OLD(g_lk_locks) && g_lk_unlocks == OLD(g_lk_unlocks))
+__CPROVER_ensures(SBA_KEPT(sba))
+#ifndef SBA_ENFORCE_ALLOC
+__CPROVER_ensures(g_al_calls == OLD(g_al_calls) + 1 && g_al_size == size) /* call record for the clients (ghost-only: the body cannot establish it) */
+#endif
+;
+
+/* ---- s_sba_free, page level (ENFORCED on the real body): NULL is ignored; a block inside a page that carries both tags
+ *      goes to s_sba_free_to_bin of the bin named in the page header, under that bin's mutex; anything else goes to the
+ *      parent.  ASSUMPTION for the last case: the memory at the page base of a block of the parent does not carry the
+ *      tag pair (the source's own heuristic; in the model a parent block is an object of its own, so its first bytes are
+ *      what is inspected). ---- */
+#define SBA_PG_HDR ((struct page_header *)g_pg)
+static void s_sba_free(struct small_block_allocator *sba, void *addr)
+SBA_REQ(sba)
+__CPROVER_requires(g_case == 0 || g_case == 1 || g_case == 2)
+__CPROVER_requires(g_case == 0 ==> addr == NULL)
+__CPROVER_requires(g_case == 1 ==> g_pgsz <= SBA_PAGE && g_pgsz >= SBA_PAGE && __CPROVER_is_fresh(g_pg, g_pgsz) && g_off >= SBA_HDR && g_off < SBA_PAGE && PEQ(addr, g_pg + g_off) &&
+                                   SBA_PG_HDR->tag == AWS_SBA_TAG_VALUE && SBA_PG_HDR->tag2 == AWS_SBA_TAG_VALUE &&
+                                   g_bi < AWS_SBA_BIN_COUNT && SBA_PG_HDR->bin == &sba->bins[g_bi])
+__CPROVER_requires(g_case == 2 ==> g_lsz > 512 && __CPROVER_is_fresh(addr, g_lsz) &&
+                                   !(((struct page_header *)addr)->tag == AWS_SBA_TAG_VALUE && ((struct page_header *)addr)->tag2 == AWS_SBA_TAG_VALUE))
+__CPROVER_assigns(g_case == 1 : g_lk_held, g_lk_locks, g_lk_unlocks, g_ftb_calls, g_ftb_bin, g_ftb_addr, SBA_BIN_FRAME(&sba->bins[g_bi]),
+                  __CPROVER_object_upto(g_pg, sizeof(struct page_header)))
+__CPROVER_assigns(g_case == 2 : g_prel_calls, g_prel_last)
+__CPROVER_frees(g_case == 1 && g_ftb_retires : g_pg)
+__CPROVER_frees(g_case == 2 : addr)
+__CPROVER_ensures(g_case == 1 ==> g_ftb_calls == OLD(g_ftb_calls) + 1 && g_ftb_bin == &sba->bins[g_bi] && g_ftb_addr == addr &&
+                                  g_lk_locks == OLD(g_lk_locks) + 1 && g_lk_unlocks == OLD(g_lk_unlocks) + 1 && g_prel_calls == OLD(g_prel_calls))
+__CPROVER_ensures(g_case == 2 ==> g_prel_calls == OLD(g_prel_calls) + 1 && g_prel_last == addr && g_ftb_calls == OLD(g_ftb_calls) &&
+                                  g_lk_locks == OLD(g_lk_locks) && g_lk_unlocks == OLD(g_lk_unlocks))
+__CPROVER_ensures(g_case == 0 ==> g_prel_calls == OLD(g_prel_calls) && g_ftb_calls == OLD(g_ftb_calls) && g_lk_locks == OLD(g_lk_locks) &&
+                                  g_lk_unlocks == OLD(g_lk_unlocks))
+__CPROVER_ensures(SBA_KEPT(sba))
+;
+/* ---- s_sba_free, block layer (what realloc / release see; ASSUMED abstraction of the contract above + free_step_*):
+ *      NULL is ignored, otherwise the block's life ends; nothing else is touched. ---- */
+void sba_free_block_contract(struct small_block_allocator *sba, void *addr)
+SBA_REQ(sba)
+__CPROVER_requires(addr == NULL || __CPROVER_is_freeable(addr))
+__CPROVER_assigns(g_fr_calls, g_fr_last)
+__CPROVER_frees(addr)
+__CPROVER_ensures(g_fr_calls == OLD(g_fr_calls) + 1 && g_fr_last == addr)
+__CPROVER_ensures(SBA_KEPT(sba))
+;
+#endif /* SBA_BLOCK_LAYER */
 
 #endif
